@@ -300,11 +300,11 @@ def c02_need(o):
 
 def c14a_sig(o):
     a = o["c"]["a"]
-    return f"iss={a['iss']}:sub={a['sub']}:by={a['by']}:kid={a['kid']}:alg={a['alg']}:aud={a['aud']}:subject={o['c']['cfg']['subject']}:probe={o['c']['probe']}"
+    return f"iss={a['iss']}:sub={a['sub']}:by={a['by']}:kid={a['kid']}:alg={a['alg']}:aud={a['aud']}:subject={o['c']['cfg']['subject']}:maxAge={o['c']['cfg']['maxAge']}:offset={o['c']['cfg'].get('offset', 0)}:probe={o['c']['probe']}"
 
 
 def c14a_need(o):
-    return [f"{k}:{v['v']}" for k, v in o["o"].items()]
+    return [f"{k}:{v['v']}" for k, v in o["o"].items() if isinstance(v, dict)]
 
 
 def c14r_sig(o):
